@@ -147,6 +147,11 @@ def term(e, env, mutated=frozenset()):
         t = term(e["then"], env, mutated)
         f = term(e["else"], env, mutated) if "else" in e else ("lit", "()")
         return ("if", c, t, f)
+    if k == "Match" and "TryDesugar" in e.get("source", ""):
+        # `x?` is transparent: the value on the success path is the payload of x
+        sc = e["scrut"]
+        if sc.get("k") == "Call" and sc["args"]:
+            return term(sc["args"][0], env, mutated)
     if k == "Ret":
         return ("ret", term(e["e"], env, mutated) if "e" in e else ("lit", "()"))
     return ("opaque", k, e.get("id"))
